@@ -446,7 +446,93 @@ func (s *State) allocRef(hint string) string {
 
 // ---- obligations -------------------------------------------------------------
 
+// sexprArgs splits "(op a b c)" into op and its top-level arguments.
+func sexprArgs(t string) (string, []string) {
+	if len(t) < 2 || t[0] != '(' || t[len(t)-1] != ')' {
+		return "", nil
+	}
+	body := t[1 : len(t)-1]
+	var parts []string
+	d := 0
+	inq := false
+	bar := false
+	start := 0
+	for i := 0; i < len(body); i++ {
+		c := body[i]
+		if bar {
+			if c == '|' {
+				bar = false
+			}
+			continue
+		}
+		if c == '"' {
+			inq = !inq
+			continue
+		}
+		if inq {
+			continue
+		}
+		switch c {
+		case '|':
+			bar = true
+		case '(':
+			d++
+		case ')':
+			d--
+		case ' ', '\n', '\t':
+			if d == 0 {
+				if i > start {
+					parts = append(parts, body[start:i])
+				}
+				start = i + 1
+			}
+		}
+	}
+	if start < len(body) {
+		parts = append(parts, body[start:])
+	}
+	if len(parts) == 0 {
+		return "", nil
+	}
+	return parts[0], parts[1:]
+}
+
+// splitGoal breaks a goal into independently checkable conjuncts: (and a b) and (=> h (and a b)).
+func splitGoal(g string) []string {
+	op, args := sexprArgs(g)
+	switch {
+	case op == "and" && len(args) > 1:
+		var out []string
+		for _, a := range args {
+			out = append(out, splitGoal(a)...)
+		}
+		return out
+	case op == "=>" && len(args) == 2:
+		var out []string
+		for _, c := range splitGoal(args[1]) {
+			out = append(out, implies(args[0], c))
+		}
+		return out
+	}
+	return []string{g}
+}
+
 func (s *State) oblige(kind, name string, props []string, goal, where, specSrc string) {
+	if s.dead {
+		return
+	}
+	if kind == "post" || kind == "invariant-preserved" || kind == "invariant-entry" {
+		if parts := splitGoal(goal); len(parts) > 1 && len(parts) <= 12 {
+			for i, p := range parts {
+				s.oblige1(kind, fmt.Sprintf("%s.%d", name, i+1), props, p, where, specSrc)
+			}
+			return
+		}
+	}
+	s.oblige1(kind, name, props, goal, where, specSrc)
+}
+
+func (s *State) oblige1(kind, name string, props []string, goal, where, specSrc string) {
 	if s.dead {
 		return
 	}
